@@ -291,6 +291,11 @@ func dischargeFlat(obls []*Obl, outDir string, secs int, par int) {
 			o.Solver = "syntactic"
 			continue
 		}
+		if o.ExpectSat && len(o.Assume) == 0 && o.Reach.IsTrue() {
+			o.Status = "cover-ok"
+			o.Solver = "syntactic"
+			continue
+		}
 		i, o := i, o
 		// scripts are built sequentially (term tables are not thread safe)
 		var script string
@@ -302,6 +307,7 @@ func dischargeFlat(obls []*Obl, outDir string, secs int, par int) {
 		} else {
 			roots := []*Term{o.Reach, o.Goal}
 			as := coneOfInfluence(o.Assume, roots)
+			as = append(as, groundInstances(append(append([]*Term{}, as...), o.Reach), []*Term{o.Goal})...)
 			mts, ns := modelTermsOf(o.Inputs)
 			mnames = ns
 			script = Script(append(as, o.Reach), o.Goal, true, mts)
